@@ -78,8 +78,11 @@ def search(ctx, deep):
     n_theta = 5 * (5 if deep else 1)
     checked = found = 0
     for fam in B.FAMS:
-        for th in B.theta_all(fam) + [B.theta_random(fam, rng) for _ in range(n_theta)]:
+        # Frank near independence: a valid non-zero theta of tiny magnitude (set directly or restored, never fitted)
+        tiny = [1e-9, -1e-8, 5e-8, -1.1e-7, 1e-6, -1e-5] if fam == 'frank' else []
+        for th in B.theta_all(fam) + tiny + [B.theta_random(fam, rng) for _ in range(n_theta)]:
             c = B.make(fam, th)
+            rtol = 1e-6 if abs(th) < 1e-4 else 1e-8     # the conditional CDF itself loses digits as theta -> 0
             n = rng.choice([1, 3, 10, 40] if not deep else [1, 3, 10, 200])
             corner = [(1e-4, 1e-4), (1e-4, 1 - 1e-4), (1 - 1e-4, 1e-4), (1 - 1e-4, 1 - 1e-4)]
             rows = [(B.point(rng, 'open'), B.point(rng, 'open')) for _ in range(n)] + corner
@@ -106,8 +109,8 @@ def search(ctx, deep):
                 r = resid(fam, th, ui, yi, vi)
                 if not (0 <= ui <= 1):
                     bad('range', {'y': yi, 'v': vi}, ui, 'u in [0,1]')
-                elif not abs(r) <= 1e-8:
-                    bad('residual', {'y': yi, 'v': vi}, {'u': ui, 'h-y': r}, '|h(u,v)-y| <= 1e-8')
+                elif not abs(r) <= rtol:
+                    bad('residual', {'y': yi, 'v': vi}, {'u': ui, 'h-y': r}, f'|h(u,v)-y| <= {rtol}')
             ok_idx = [i for i, s in enumerate(solo) if s is not None]
             if ok_idx:
                 with np.errstate(all='ignore'):
